@@ -372,6 +372,18 @@ impl<'a> Gen<'a> {
                 // weak back edge
                 out.push(Act::Downgrade { src: Src::R(regs[0]), dst: WLoc::Of(Own::R(regs[k - 1]), 1) });
             }
+            4 => {
+                // a member's cleaning action holds a Weak to a peer of the same ring and upgrades it when it runs, i.e.
+                // while the ring is being destroyed (or when clean() is called): keeps the result / drops it
+                let peer = regs[(1) % k];
+                let wr = self.rng.idx(NWR) as u8;
+                out.push(Act::Downgrade { src: Src::R(peer), dst: WLoc::WR(wr) });
+                let dst = if self.rng.chance(1, 2) { Dst::G(self.glob()) } else { Dst::Discard };
+                out.push(Act::Register { own: Own::R(regs[0]), action: Box::new(ActionSpec { cap: None, wcap: Some(WLoc::WR(wr)), script: vec![Act::Upgrade { src: WLoc::Cap, dst }] }), dst: self.rng.idx(NC) as u8 });
+                if self.rng.chance(1, 2) {
+                    out.push(Act::WDrop { dst: WLoc::WR(wr) });
+                }
+            }
             _ => {}
         }
         // un-buffering traffic before the handles go
